@@ -426,6 +426,14 @@ MUTANTS = [
      "error-handled-without-status-2"),
     ("f24-walker-store-dropped", "C14", "src/cli/main.rs",
      "        if result.is_err() {\n            EXIT_CODE.store(2, Ordering::SeqCst);\n        }\n", "", "walker-error-without-status-2"),
+    ("pair-binop-getter-reads-lhs", "C03", "src/formatters/trivia_util.rs",
+     "            Expression::BinaryOperator { rhs, .. } => rhs.trailing_trivia(),",
+     "            Expression::BinaryOperator { lhs, .. } => lhs.trailing_trivia(),",
+     "getter-updater-child-mismatch Expression reads=arg:1.BinaryOperator.lhs"),
+    ("ignoreguard-extra-condition", "C17", "src/cli/main.rs",
+     "                            opt.respect_ignores\n                                && path_is_stylua_ignored(path, opt.search_parent_directories)?",
+     "                            opt.respect_ignores\n                                && !opt.check\n                                && path_is_stylua_ignored(path, opt.search_parent_directories)?",
+     "ignore-lookup-behind-extra-condition"),
 ]
 
 
